@@ -67,6 +67,9 @@ type params struct {
 	// Chatty tools print notices on their standard error in every command,
 	// whether it succeeds or not (npm notices, deprecation warnings)
 	Chatty map[string]bool `json:"chatty,omitempty"`
+	// Stray: an executable goimports lies about outside $PATH, where `go install`
+	// leaves it ($GOBIN, $GOPATH/bin or ~/go/bin): it does not make the tool present
+	Stray string `json:"stray_goimports,omitempty"`
 }
 
 type c20 struct{}
@@ -147,6 +150,9 @@ func (c20) Generate(env *kernel.Env, r *kernel.Rand, index int) any {
 			k++
 		}
 		p.Callers = append(p.Callers, reqs)
+	}
+	if r.Chance(1, 5) {
+		p.Stray = kernel.Pick(r, []string{"gobin", "gopath", "home"})
 	}
 	p.Chatty = map[string]bool{}
 	for _, t := range toolNames {
@@ -360,6 +366,32 @@ func (c20) Execute(env *kernel.Env, raw json.RawMessage, ch *kernel.Choices) *ke
 	out := &kernel.Outcome{}
 	savedPath := os.Getenv("PATH")
 	defer os.Setenv("PATH", savedPath)
+	if p.Stray != "" {
+		stray := filepath.Join(env.Scratch, fmt.Sprintf("c20-stray-%d", os.Getpid()))
+		var bin, name string
+		switch p.Stray {
+		case "gobin":
+			bin, name = filepath.Join(stray, "gobin"), "GOBIN"
+		case "gopath":
+			bin, name = filepath.Join(stray, "gopath", "bin"), "GOPATH"
+		default:
+			bin, name = filepath.Join(stray, "home", "go", "bin"), "HOME"
+		}
+		os.MkdirAll(bin, 0o755)
+		os.WriteFile(filepath.Join(bin, "goimports"), []byte("#!/bin/sh\nexit 0\n"), 0o755)
+		val := map[string]string{"GOBIN": bin, "GOPATH": filepath.Join(stray, "gopath"), "HOME": filepath.Join(stray, "home")}[name]
+		old, had := os.LookupEnv(name)
+		os.Setenv(name, val)
+		out.Fault("stray_goimports_outside_path")
+		defer func() {
+			if had {
+				os.Setenv(name, old)
+			} else {
+				os.Unsetenv(name)
+			}
+			os.RemoveAll(stray)
+		}()
+	}
 	w := &world{p: &p, files: map[string]bool{}, formatted: map[string]int{}, out: out}
 	var results []*reqResult
 	for _, c := range p.Callers {
@@ -656,6 +688,11 @@ func (c20) Shrink(raw json.RawMessage) []json.RawMessage {
 	if !p.Which {
 		q := p
 		q.Which = true
+		out = append(out, kernel.MustJSON(q))
+	}
+	if p.Stray != "" {
+		q := p
+		q.Stray = ""
 		out = append(out, kernel.MustJSON(q))
 	}
 	for _, t := range ts {
